@@ -36,6 +36,15 @@ pub fn samples_arg(order: &[usize], assign: &[Option<usize>], unnamed_pop: Optio
     format!("{}:{}", if via_file { "S" } else { "s" }, items.join(","))
 }
 
+/// like `samples_arg`, with caller-chosen sample names and population labels (C09: names and labels with blanks,
+/// punctuation, shared first words, an empty label)
+pub fn samples_arg_styled(order: &[usize], assign: &[Option<usize>], unnamed_pop: Option<usize>, via_file: bool, names: &[String], labels: &[String]) -> String {
+    let items: Vec<String> = order.iter().filter_map(|&c| assign[c].map(|p| if Some(p) == unnamed_pop { names[c].clone() } else { format!("{}={}", names[c], labels[p]) })).collect();
+    format!("{}:{}", if via_file { "S" } else { "s" }, items.join(","))
+}
+
+const STYLED_LABELS: &[&str] = &["East Africa", "East Asia", "East", "East  Africa", "West-1", "a.b", "x:y", "p|q", "#h", "A B C", "A B", "A", "pop 1", "pop 2", "\u{e9}t\u{e9}", ""];
+
 pub fn records_str(recs: &[(String, usize, Vec<String>)]) -> String {
     if recs.is_empty() { return "-".into(); }
     recs.iter().map(|(c, p, g)| format!("{c}~{p}~{}", g.join(","))).collect::<Vec<_>>().join(";")
@@ -87,10 +96,14 @@ pub fn gen_c01(ctx: &Ctx, rng: &mut Rng, out: &mut Vec<String>) {
         let eff_assign: Vec<Option<usize>> = if all { vec![Some(0); ncols] } else { assign.clone() };
         let nrec = g.rng.range(1, if ctx.tier_thorough { 300 } else { 30 }) as usize;
         let mut recs = Vec::new();
+        // positions repeat (a multiallelic site split over several records, a SNP and an indel at one position): a third of
+        // the records share contig and position with their predecessor
+        let mut pos = 10;
         for r in 0..nrec {
             let force = g.rng.chance(1, 10);
             let contig = if r * 2 < nrec { "1" } else { "chrX" };
-            recs.push((contig.to_string(), 10 + 3 * r, record(&mut g, &eff_assign, [70, 12, 8, 10], force, mem)));
+            if !g.rng.chance(1, 3) { pos += 3; }
+            recs.push((contig.to_string(), pos, record(&mut g, &eff_assign, [70, 12, 8, 10], force, mem)));
         }
         let c = cols(ncols).join(",");
         if mem { out.push(format!("c01.mem\t{c}\t{sl}\tN\t{}", records_str(&recs))); }
@@ -98,6 +111,12 @@ pub fn gen_c01(ctx: &Ctx, rng: &mut Rng, out: &mut Vec<String>) {
             let container = ["vcf", "vcf", "bcf", "vcfgz", "rawbcf"][i % 5];
             if container.contains("bcf") { bcf_safe(&mut recs); }
             out.push(format!("c01.cli\t{container}\tpath\t4\t0\t{}\t{c}\t{sl}\tN\t0\t{}\t{}", (i % 2), if i % 4 == 0 { "3" } else { "-" }, records_str(&recs)));
+            // byte level (the model decodes the container itself); sample lists given by file are left to the `.cli` form
+            if i % 3 == 0 && !sl.starts_with("S:") {
+                let rs = records_str(&recs);
+                let cs = crate::vcf::CallSet { cols: cols(ncols), recs: crate::create::parse_records(&rs), extras: i % 2 == 1 };
+                if let Some(l) = crate::create::bytes_case(&cs, container, (i % 4) as u64, &c, &sl, "N", "0", "-", &rs) { out.push(l); }
+            }
         }
     }
 }
@@ -110,8 +129,15 @@ pub fn gen_c08(ctx: &Ctx, rng: &mut Rng, out: &mut Vec<String>) {
     for a in alleles { for s in ["/", "|"] { for b in alleles { gts.push(format!("{a}{s}{b}")); } } }
     let mut tri: Vec<String> = Vec::new();
     for a in alleles { for s in ["/", "|"] { for b in alleles { for t in ["/", "|"] { for c in alleles { tri.push(format!("{a}{s}{b}{t}{c}")); } } } } }
-    if !ctx.tier_thorough { rng.shuffle(&mut tri); tri.truncate(60); }
+    if !ctx.tier_thorough {
+        // quick: every triploid string over {., 0, 1} (all-missing, partly missing, called), 40 of the others
+        let core: Vec<String> = tri.iter().filter(|g| g.chars().all(|c| ".01/|".contains(c))).cloned().collect();
+        let mut rest: Vec<String> = tri.iter().filter(|g| !g.chars().all(|c| ".01/|".contains(c))).cloned().collect();
+        rng.shuffle(&mut rest); rest.truncate(40);
+        tri = core; tri.extend(rest);
+    }
     gts.extend(tri);
+    for g in ["./././.", ".|.|.|.", "0/0/0/0", "./0/./1", "././././."] { gts.push(g.to_string()); }
     if ctx.tier_thorough { for g in ["0/255", "255/0", "0/2147483648", "1/62", "62|1"] { gts.push(g.to_string()); } }
     for gt in &gts {
         for (sel, sl) in [("selected", "s:s0=A"), ("unselected", "s:s1=A"), ("both", "N")] {
@@ -122,6 +148,14 @@ pub fn gen_c08(ctx: &Ctx, rng: &mut Rng, out: &mut Vec<String>) {
                 // a second record after it shows that a ploidy error really stops the run and that nothing leaks
                 out.push(format!("c08.cli\t{container}\tpath\t4\t0\t0\ts0,s1\t{sl}\tN\t0\t-\tchr2~77~{gt},0/1;chr2~78~0/1,1/1"));
             }
+        }
+        // byte level: the GT string inside real VCF text / BCF int8 vectors, decoded by the container model
+        for container in ["vcf", "rawbcf", "vcfgz"] {
+            if container != "vcf" && (gt.contains("255") || gt.contains("2147483648") || gt.contains("62")) { continue; }
+            if !ctx.tier_thorough && container == "vcfgz" && gt.len() > 3 { continue; }
+            let rs = format!("chr2~77~{gt},0/1;chr2~78~0/1,1/1");
+            let cs = crate::vcf::CallSet { cols: cols(2), recs: crate::create::parse_records(&rs), extras: false };
+            if let Some(l) = crate::create::bytes_case(&cs, container, 2, "s0,s1", "s:s0=A", "N", "0", "-", &rs) { out.push(l); }
         }
         // in a run with projection as well (precision fixed)
         if gt.len() <= 3 { out.push(format!("c08.cli\tvcf\tstdin\t4\t0\t0\ts0,s1\ts:s0=A,s1=A\tshape:3\t0\t4\tchr2~77~{gt},0/1;chr2~78~0/1,1/1")); }
@@ -148,7 +182,16 @@ pub fn gen_c09(ctx: &Ctx, rng: &mut Rng, out: &mut Vec<String>) {
         let nrec = g.rng.range(1, 12) as usize;
         let recs: Vec<(String, usize, Vec<String>)> = (0..nrec).map(|r| ("7".to_string(), 100 + r, record(&mut g, &assign, [80, 12, 8, 0], false, false))).collect();
         let base_order: Vec<usize> = (0..ncols).collect();
-        let c = cols(ncols);
+        // a third of the call sets use sample names and labels with blanks / punctuation (never `,` `=` tab or newline, which
+        // delimit the list syntax): distinct labels sharing their first word, a label that is a prefix of another, an empty label
+        let styled = i % 3 == 1;
+        let c: Vec<String> = if styled { (0..ncols).map(|j| match j % 4 { 0 => format!("s{j} x"), 1 => format!("NA {j}"), 2 => format!("s{j}.b-1"), _ => format!("s{j}") }).collect() } else { cols(ncols) };
+        let labels: Vec<String> = if styled {
+            let mut pool: Vec<&str> = STYLED_LABELS.to_vec(); g.rng.shuffle(&mut pool);
+            if i % 2 == 1 { pool.retain(|l| !l.is_empty()); }
+            pool.into_iter().take(5).map(|l| l.to_string()).collect()
+        } else { (0..5).map(pop_name).collect() };
+        let samples_arg = |order: &[usize], assign: &[Option<usize>], unnamed: Option<usize>, via_file: bool| samples_arg_styled(order, assign, unnamed, via_file, &c, &labels);
         // (a) the list as given, inline and via file
         for via_file in [false, true] {
             out.push(format!("c09.cli\tvcf\tpath\t4\t0\t0\t{}\t{}\tN\t0\t-\t{}", c.join(","), samples_arg(&base_order, &assign, unnamed, via_file), records_str(&recs)));
@@ -172,7 +215,7 @@ pub fn gen_c09(ctx: &Ctx, rng: &mut Rng, out: &mut Vec<String>) {
             out.push(format!("c09.cli\tvcf\tpath\t4\t0\t0\t{}\t{}\tN\t0\t-\t{}", c.join(","), sl, records_str(&recs)));
             out.push(format!("c09.cli\tvcf\tpath\t4\t0\t0\t{}\tS:\tN\t0\t-\t{}", c.join(","), records_str(&recs)));
             let first = base_order.iter().find(|&&j| assign[j].is_some()).unwrap();
-            let mut sl2 = samples_arg(&base_order, &assign, unnamed, false); sl2.push_str(&format!(",s{first}=Z"));
+            let mut sl2 = samples_arg(&base_order, &assign, unnamed, false); sl2.push_str(&format!(",{}=Z", c[*first]));
             out.push(format!("c09.cli\tvcf\tpath\t4\t0\t0\t{}\t{}\tN\t0\t-\t{}", c.join(","), sl2, records_str(&recs)));
         }
     }
@@ -203,6 +246,9 @@ pub fn gen_c11(ctx: &Ctx, rng: &mut Rng, out: &mut Vec<String>) {
         for proj in ["N", "shape:3,3", "shape:5,3", "ind:1,0"] {
             let recs = vec![("1".to_string(), 1, kind_record(p, true)), ("1".to_string(), 2, kind_record(s, true))];
             out.push(format!("c11.mem\t{cols4}\t{sl}\t{proj}\t{}", records_str(&recs)));
+            // the same pair at one contig and position
+            let recs = vec![("1".to_string(), 7, kind_record(p, true)), ("1".to_string(), 7, kind_record(s, true))];
+            out.push(format!("c11.mem\t{cols4}\t{sl}\t{proj}\t{}", records_str(&recs)));
         }
     } }
     let nseq = if ctx.tier_thorough { 1000 } else { 120 };
@@ -211,7 +257,8 @@ pub fn gen_c11(ctx: &Ctx, rng: &mut Rng, out: &mut Vec<String>) {
         let len = rng.range(2, 12) as usize;
         let kinds: Vec<usize> = (0..len).map(|_| rng.below(8) as usize).collect();
         let proj = *rng.pick(&["N", "shape:3,3", "shape:5,3", "shape:4,2", "shape:1,1", "ind:2,1", "ind:1,1"]);
-        let mk = |ks: &[usize], mem: bool| -> String { records_str(&ks.iter().enumerate().map(|(j, k)| ("1".to_string(), j + 1, kind_record(*k, mem))).collect::<Vec<_>>()) };
+        // odd sequences: runs of records sharing contig and position (every permutation / split then moves records in and out of such runs)
+        let mk = |ks: &[usize], mem: bool| -> String { records_str(&ks.iter().enumerate().map(|(j, k)| ("1".to_string(), if i % 2 == 1 { 1 + j / 3 } else { j + 1 }, kind_record(*k, mem))).collect::<Vec<_>>()) };
         out.push(format!("c11.mem\t{cols4}\t{sl}\t{proj}\t{}", mk(&kinds, true)));
         // every split point
         for cut in 1..len {
@@ -238,7 +285,9 @@ pub fn gen_c10(ctx: &Ctx, rng: &mut Rng, out: &mut Vec<String>) {
         let sl = samples_arg(&order, &assign, None, false);
         let sizes = pop_sizes(&order, &assign);
         let len = g.rng.range(1, 8) as usize;
-        let base: Vec<(String, usize, Vec<String>)> = (0..len).map(|r| (if r % 2 == 0 { "1" } else { "2" }.to_string(), 5 + r, record(&mut g, &assign, [75, 15, 10, 0], false, false))).collect();
+        // half of the streams repeat positions: consecutive records (counted or skipped) at the same contig and position
+        let rep = i % 2 == 1;
+        let base: Vec<(String, usize, Vec<String>)> = (0..len).map(|r| (if rep { if r * 2 < len { "1" } else { "2" } } else if r % 2 == 0 { "1" } else { "2" }.to_string(), if rep { 5 + r / 3 } else { 5 + r }, record(&mut g, &assign, [75, 15, 10, 0], false, false))).collect();
         let proj = if i % 3 == 0 { format!("shape:{}", sizes.iter().map(|n| (1 + g.rng.range(0, 2 * *n as u64)).to_string()).collect::<Vec<_>>().join(",")) } else { "N".to_string() };
         let c = cols(ncols).join(",");
         for strict in [0, 1] {
@@ -259,12 +308,20 @@ pub fn gen_c10(ctx: &Ctx, rng: &mut Rng, out: &mut Vec<String>) {
                             // … standing before or after a selected sample that is missing / multiallelic at the same site
                             if sels.len() > 1 && (pos + i) % 3 != 0 { let other = sels[(pos + i + 1) % sels.len()]; gts[other] = if pos % 2 == 0 { "./.".into() } else { "1/2".into() }; }
                             ("9".to_string(), 900 + pos, gts) }
-                        1 => { gts[sel] = "./.".into(); ("9".to_string(), 900 + pos, gts) }            // would be skipped
+                        1 => { gts[sel] = "./.".into();                                                  // would be skipped …
+                               // … in the repeating streams at the position of its predecessor (which may be skipped as well)
+                               if rep && pos > 0 { (base[pos - 1].0.clone(), base[pos - 1].1, gts) } else { ("9".to_string(), 900 + pos, gts) } }
                         2 => ("9".to_string(), 900 + pos, vec!["!badpos".to_string()]),
                         _ => ("9".to_string(), 900 + pos, vec!["!trunc".to_string()]),
                     };
                     recs.insert(pos, ins);
                     out.push(format!("c10.cli\tvcf\t{}\t4\t0\t0\t{c}\t{sl}\t{proj}\t{strict}\t{}\t{}", if fault % 2 == 0 { "path" } else { "stdin" }, if proj == "N" { "-" } else { "6" }, records_str(&recs)));
+                    if (pos + fault + i) % 3 == 0 {
+                        let rs = records_str(&recs);
+                        let cs = crate::vcf::CallSet { cols: cols(ncols), recs: crate::create::parse_records(&rs), extras: false };
+                        let container = if fault >= 2 || i % 2 == 0 { "vcf" } else { "rawbcf" };
+                        if let Some(l) = crate::create::bytes_case(&cs, container, 0, &c, &sl, &proj, &strict.to_string(), if proj == "N" { "-" } else { "6" }, &rs) { out.push(l); }
+                    }
                 }
             }
         }
@@ -303,12 +360,36 @@ pub fn gen_c02(ctx: &Ctx, rng: &mut Rng, out: &mut Vec<String>) {
         let ind_ok = target.iter().all(|t| t % 2 == 1);
         let proj = if ind_ok && g.rng.chance(1, 2) { format!("ind:{}", target.iter().map(|t| ((t - 1) / 2).to_string()).collect::<Vec<_>>().join(",")) } else { format!("shape:{}", target.iter().map(|t| t.to_string()).collect::<Vec<_>>().join(",")) };
         let nrec = g.rng.range(1, 25) as usize;
-        let recs: Vec<(String, usize, Vec<String>)> = (0..nrec).map(|r| ("1".to_string(), 1 + r, record(&mut g, &assign, [70, 20, 10, 0], false, mem))).collect();
+        let recs: Vec<(String, usize, Vec<String>)> = (0..nrec).map(|r| ("1".to_string(), 1 + (2 * r) / 3, record(&mut g, &assign, [70, 20, 10, 0], false, mem))).collect();
         let c = cols(ncols).join(",");
         let mut recs = recs;
         if !mem && i % 2 == 1 { bcf_safe(&mut recs); }
         if mem { out.push(format!("c02.mem\t{c}\t{sl}\t{proj}\t{}", records_str(&recs))); }
         else { out.push(format!("c02.cli\t{}\tpath\t4\t0\t0\t{c}\t{sl}\t{proj}\t0\t{}\t{}", ["vcf", "bcf"][i % 2], ["0", "1", "6", "15", "-"][i % 5], records_str(&recs))); }
+    }
+    // five to eight populations (one or two samples each): sequences of projected sites that agree on the counts of some
+    // populations and differ in others, in every position (leading, middle, trailing)
+    let nwide = if ctx.tier_thorough { 120 } else { 24 };
+    for i in 0..nwide {
+        let npops = 5 + (i % 4);
+        let per: Vec<usize> = (0..npops).map(|_| 1 + g.rng.below(2) as usize).collect();
+        let ncols: usize = per.iter().sum();
+        let mut assign: Vec<Option<usize>> = Vec::new();
+        for (p, n) in per.iter().enumerate() { for _ in 0..*n { assign.push(Some(p)); } }
+        let order: Vec<usize> = (0..ncols).collect();
+        let sl = samples_arg(&order, &assign, None, false);
+        let target: Vec<usize> = per.iter().map(|n| 1 + g.rng.range(1, 2 * *n as u64 - 1).max(1) as usize).collect();
+        let proj = format!("shape:{}", target.iter().map(|t| t.to_string()).collect::<Vec<_>>().join(","));
+        // a base record, then variants that change the genotypes of exactly one population
+        let base = record(&mut g, &assign, [100, 0, 0, 0], false, true);
+        let mut recs: Vec<(String, usize, Vec<String>)> = vec![("1".to_string(), 1, base.clone())];
+        for v in 0..(2 * npops) {
+            let pchg = v % npops;
+            let mut r = base.clone();
+            for (c, a) in assign.iter().enumerate() { if *a == Some(pchg) { let cl = if g.rng.chance(1, 5) { 1 } else { 0 }; r[c] = g.gt_mem(cl).to_string(); } }
+            recs.push(("1".to_string(), 2 + v, r));
+        }
+        out.push(format!("c02.mem\t{}\t{sl}\t{proj}\t{}", cols(ncols).join(","), records_str(&recs)));
     }
     // cohorts of hundreds of samples, one record each (this is where binomials leave the f64 range)
     let cohort_sizes: &[usize] = if ctx.tier_thorough { &[90, 300, 520, 600, 1500, 3000] } else { &[90, 300, 520, 600] };
@@ -345,11 +426,19 @@ pub fn gen_c12(ctx: &Ctx, rng: &mut Rng, out: &mut Vec<String>) {
         let sizes = pop_sizes(&order, &assign);
         let nrec = if i % 5 == 4 { g.rng.range(500, 3000) as usize } else { g.rng.range(1, 60) as usize };
         let bad_last = i % 6 == 5;
-        let mut recs: Vec<(String, usize, Vec<String>)> = (0..nrec).map(|r| (if r < nrec / 2 { "1" } else { "2" }.to_string(), 1 + r, record(&mut g, &assign, [80, 12, 8, 0], false, false))).collect();
+        let mut recs: Vec<(String, usize, Vec<String>)> = (0..nrec).map(|r| (if r < nrec / 2 { "1" } else { "2" }.to_string(), 1 + (2 * r) / 3, record(&mut g, &assign, [80, 12, 8, 0], false, false))).collect();
         if bad_last { let k = assign.iter().position(|a| a.is_some() || sl == "N").unwrap_or(0); let last = recs.len() - 1; recs[last].2[k] = "0/0/1".into(); }
         let proj = if i % 2 == 0 && sl != "N" { format!("shape:{}", sizes.iter().map(|n| (1 + g.rng.range(1, 2 * *n as u64)).to_string()).collect::<Vec<_>>().join(",")) } else { "N".to_string() };
         bcf_safe(&mut recs);
         out.push(format!("c12.same\t{}\t{}\t{sl}\t{proj}\t0\t{}\t{}", i % 2, cols(ncols).join(","), if proj == "N" { "-" } else { "6" }, records_str(&recs)));
+        // byte level: the same call set in each container, the model decoding the very bytes handed to the binary
+        if nrec <= 200 {
+            let rs = records_str(&recs);
+            let cs = crate::vcf::CallSet { cols: cols(ncols), recs: crate::create::parse_records(&rs), extras: i % 2 == 1 };
+            for (ci, container) in ["vcf", "vcfgz", "bcf", "rawbcf"].into_iter().enumerate() {
+                if let Some(l) = crate::create::bytes_case(&cs, container, ((i + ci) % 4) as u64, &cols(ncols).join(","), &sl, &proj, "0", if proj == "N" { "-" } else { "6" }, &rs) { out.push(l); }
+            }
+        }
     }
     // sample lists that repeat a sample (the later entry decides its population): a population may lose its only sample, the
     // remaining ones must keep first-appearance order in every run (hash-ordered containers must not reach the output)
